@@ -16,7 +16,9 @@ vars == <<par, f>>
 Pars == ParsFor(Opt)
 
 \* a "key text" line without delimiter is only an error where it cannot be a continuation line
-BadOk(g, i) == g[i].t = "bad" /\ g[i].key = "ECONF_MISSING_DELIMITER" => (i = 1 \/ g[i-1].t \notin {"entry", "cont"})
+\* (IF rather than \/: inside an action TLC evaluates both disjuncts)
+BadOk(g, i) == IF g[i].t = "bad" /\ g[i].key = "ECONF_MISSING_DELIMITER" /\ i > 1
+               THEN g[i-1].t \notin {"entry", "cont"} ELSE TRUE
 NBad(g) == Cardinality({i \in 1..Len(g) : g[i].t = "bad"})
 
 Init == par \in Pars /\ f = <<>>
